@@ -571,6 +571,154 @@ func (b *built) observe(method, path string) (obs string) {
 		strings.Join(mbs, "."), strings.Join(abs, "."))
 }
 
+// ---- histories: several requests (and run-time registrations / RebuildTree) on ONE app, served one after
+// the other through the same handler with a reused fasthttp.RequestCtx, so that the pooled DefaultCtx is reused.
+//
+// case line:  id  cfg  regs  ops  obs     (5 fields)
+//	ops  `|`-separated:  Q=METHOD=hexpath   a request
+//	                     R=<registration>   app.<register> at run time (not served before the next RebuildTree)
+//	                     B                  app.RebuildTree()
+//	obs  r=t,s,a/t,s,a/…   per request: trace, status, Allow
+//	     rp=…  Route.Path of every registration (initial ones, then the run-time ones in order)
+//	     mb=…  per registration, per request: (*Route).match
+type hop struct {
+	kind   byte
+	method string
+	path   string
+	g      reg
+}
+
+func (o hop) String() string {
+	switch o.kind {
+	case 'Q':
+		return "Q=" + o.method + "=" + gen.Hex(o.path)
+	case 'R':
+		return "R=" + o.g.String()
+	}
+	return "B"
+}
+
+func opsField(ops []hop) string {
+	out := make([]string, len(ops))
+	for i, o := range ops {
+		out[i] = o.String()
+	}
+	return strings.Join(out, "|")
+}
+
+func parseOps(s string) ([]hop, bool) {
+	var ops []hop
+	for _, f := range strings.Split(s, "|") {
+		switch {
+		case f == "B":
+			ops = append(ops, hop{kind: 'B'})
+		case strings.HasPrefix(f, "Q="):
+			p := strings.Split(f[2:], "=")
+			if len(p) != 2 || !validName(p[0]) {
+				return nil, false
+			}
+			path, ok := unhexSafe(p[1])
+			if !ok || !pathOK(path) {
+				return nil, false
+			}
+			ops = append(ops, hop{kind: 'Q', method: p[0], path: path})
+		case strings.HasPrefix(f, "R="):
+			g, ok := parseReg(f[2:], 1)
+			if !ok {
+				return nil, false
+			}
+			ops = append(ops, hop{kind: 'R', g: g})
+		default:
+			return nil, false
+		}
+	}
+	return ops, len(ops) > 0
+}
+
+func observeHistory(cfg config, regs []reg, ops []hop) (obs string) {
+	defer func() {
+		if r := recover(); r != nil {
+			obs = "panic"
+		}
+	}()
+	st := &state{}
+	app := newApp(cfg)
+	for _, g := range regs {
+		register(app, g, st)
+	}
+	h := app.Handler()
+	all := append([]reg(nil), regs...)
+	var paths []string
+	var res []string
+	var fctx fasthttp.RequestCtx // reused for every request of the history
+	for _, o := range ops {
+		switch o.kind {
+		case 'R':
+			register(app, o.g, st)
+			all = append(all, o.g)
+		case 'B':
+			app.RebuildTree()
+		case 'Q':
+			st.trace = st.trace[:0]
+			st.loop = false
+			var req fasthttp.Request
+			req.Header.SetMethod(o.method)
+			req.SetRequestURI(o.path)
+			fctx.Init(&req, nil, nil)
+			fctx.Response.Reset()
+			h(&fctx)
+			tr := make([]string, len(st.trace))
+			for i, x := range st.trace {
+				tr[i] = strconv.Itoa(x)
+			}
+			t := strings.Join(tr, ".")
+			if t == "" {
+				t = "-"
+			}
+			if st.loop {
+				t = "loop"
+			}
+			var allow []string
+			if v := string(fctx.Response.Header.Peek("Allow")); v != "" {
+				allow = strings.Split(v, ", ")
+				sort.Strings(allow)
+			}
+			a := strings.Join(allow, ".")
+			if a == "" {
+				a = "-"
+			}
+			res = append(res, fmt.Sprintf("%s,%d,%s", t, fctx.Response.StatusCode(), a))
+			paths = append(paths, o.path)
+		}
+	}
+	// single-route decisions of every registration on every request path
+	rp := make([]string, len(all))
+	mbs := make([]string, len(all))
+	for i, g := range all {
+		s := buildSingle(cfg, g)
+		if s.route != nil {
+			rp[i] = s.route.Path
+		}
+		row := make([]byte, len(paths))
+		for j, path := range paths {
+			row[j] = '0'
+			if s.route != nil {
+				withCtx(s.app, s.method, path, func(c fiber.Ctx) {
+					if fiber.VerifRouteMatch(s.route, c) {
+						row[j] = '1'
+					}
+				})
+			}
+		}
+		mbs[i] = string(row)
+	}
+	return fmt.Sprintf("r=%s;rp=%s;mb=%s", strings.Join(res, "/"), hexDot(rp), strings.Join(mbs, "."))
+}
+
+func emitHistory(w *gen.Writer, id string, cfg config, regs []reg, ops []hop) {
+	w.Case(id, cfg.String(), regsField(regs), opsField(ops), observeHistory(cfg, regs, ops))
+}
+
 func regsField(regs []reg) string {
 	out := make([]string, len(regs))
 	for i, g := range regs {
@@ -586,6 +734,29 @@ func emit(w *gen.Writer, id string, b *built, method, path string) {
 
 func replay(w *gen.Writer, file string) {
 	for _, f := range gen.ReplayInputs(file) {
+		if len(f) == 4 || (len(f) == 5 && (strings.HasPrefix(f[3], "Q=") || strings.HasPrefix(f[3], "R=") || strings.HasPrefix(f[3], "B"))) {
+			// a history: id cfg regs ops [obs]
+			cfg, ok := parseConfig(f[1])
+			ops, ok2 := parseOps(f[3])
+			if !ok || !ok2 || f[2] == "" || f[2] == "-" {
+				continue
+			}
+			var regs []reg
+			bad := false
+			for _, s := range strings.Split(f[2], ";") {
+				g, ok := parseReg(s, 1)
+				if !ok {
+					bad = true
+					break
+				}
+				regs = append(regs, g)
+			}
+			if bad {
+				continue
+			}
+			emitHistory(w, f[0], cfg, regs, ops)
+			continue
+		}
 		if len(f) < 5 {
 			continue
 		}
@@ -665,6 +836,12 @@ func main() {
 			continue
 		}
 		countTable(w, t)
+		if i%4 == 0 {
+			hr := r.Fork(77001)
+			hregs, hops := genHistory(hr, t)
+			w.Count("history")
+			emitHistory(w, fmt.Sprintf("s%d.%d.h", o.Seed, i), t.cfg, hregs, hops)
+		}
 		for j := 0; j < perTable && i*perTable+j < o.N; j++ {
 			method, path := genReq(r, t)
 			emit(w, fmt.Sprintf("s%d.%d.%d", o.Seed, i, j), b, method, path)
